@@ -9,9 +9,11 @@
      - every emitted move carries consistent labels (promotions are pawn moves, castling moves are king moves
        onto the stored rook square, double pushes land on the fourth/fifth rank), captures are exactly the
        capturing types, non-captures exactly the others;
-     - MILESTONE 1: check_evasions() = exactly the legal king steps of the rules (on legal-consistent positions). *)
+     - MILESTONE 1: check_evasions() = exactly the legal king steps of the rules (on legal-consistent positions);
+     - MILESTONE 2: in DOUBLE CHECK the full statement holds: legal_moves p has no repetition and exactly the members
+       of spec_moves (abs p). *)
 From Coq Require Import NArith List Bool.
-From LC Require Import Bits Types BitboardModel MoveModel PositionModel MovegenModel MakeFacts MovegenFacts Spec.Rules Refine.Abs KingFacts.
+From LC Require Import Bits Types BitboardModel MoveModel PositionModel MovegenModel MakeFacts MovegenFacts Spec.Rules Refine.Abs Refine.MakeAbs KingFacts LegalFacts.
 Import ListNotations.
 Local Open Scope N_scope.
 
@@ -43,6 +45,16 @@ Proof. exact check_evasions_exact_lc. Qed.
 Theorem C01_partial_check_evasions_nodup : forall p, NoDup (check_evasions p).
 Proof. exact check_evasions_nodup. Qed.
 
+(* MILESTONE 2 (double check): when checkers() has more than one member, legal_moves() is — as a list without
+   repetition — exactly the legal moves of the rules: no piece other than the king can move (a non-king move cannot
+   remove two checkers: LegalFacts.simple_move_unsafe; nor can en passant: ep_cannot_resolve; castling is excluded),
+   and the king part is milestone 1. *)
+Theorem C01_partial_double_check_exact : forall dfrc p, wf p = true -> rooks_ok p -> legal_consistent dfrc (abs p) = true ->
+  (1 <? bb_count (checkers p)) = true ->
+  NoDup (legal_moves p) /\ forall m, In m (legal_moves p) <-> In m (spec_moves (abs p)).
+Proof. exact double_check_exact. Qed.
+
+Print Assumptions C01_partial_double_check_exact.
 Print Assumptions C01_partial_check_evasions_exact. Print Assumptions C01_partial_check_evasions_nodup.
 Print Assumptions C01_partial_split. Print Assumptions C01_partial_into_appends. Print Assumptions C01_partial_count.
 Print Assumptions C01_partial_is_legal. Print Assumptions C01_partial_labels. Print Assumptions C01_partial_capture_types.
